@@ -166,7 +166,15 @@ type TB interface {
 	Logf(format string, args ...interface{})
 }
 
-func replayDir(prop string) string { return filepath.Join(Root(), "replay", prop) }
+// replayDir: saved failures of a property.  VERIF_SCRATCH redirects it (and the
+// evidence file) so that the evaluation of a seeded change in a scratch
+// worktree neither reads nor writes what runs against /repo itself use.
+func replayDir(prop string) string {
+	if d := os.Getenv("VERIF_SCRATCH"); d != "" {
+		return filepath.Join(d, "replay", prop)
+	}
+	return filepath.Join(Root(), "replay", prop)
+}
 
 // Fail records the current case as a replay file and fails the test.  rapid
 // re-runs the minimal case last, so the file left behind is the shrunk one.
